@@ -31,6 +31,11 @@ IGNORE_BATTERY = [
     ("region-starts-on-last", "function f()\n\tlocal a   = 1\n\t-- stylua: ignore start\n\treturn   { 1,0,\n\t           0,1 } ;\nend\n", [], ["return   { 1,0,\n\t           0,1 } ;\n"], ["local a = 1\n"]),
     ("region-ends-on-last", "function f()\n\t-- stylua: ignore start\n\tlocal a   = 1\n\t-- stylua: ignore end\n\treturn   a\nend\n", [], ["local a   = 1\n"], ["\treturn a\n"]),
     ("region-starts-on-last-break", "while x do\n\tf()\n\t-- stylua: ignore start\n\tbreak   ;\nend\n", [], ["break   ;\n"], ["\tf()\n"]),
+    ("field-ignored-range-inside", "local t   =   {\n  -- stylua: ignore\n  f = function()\n     local   x   =   1\n  end,\n  g = function()\n     local   y   =   1\n  end,\n}\n",
+     ["--range-start", "58", "--range-end", "75"], ["  f = function()\n     local   x   =   1\n  end,\n"], []),
+    ("field-ignored", "local t   =   {\n  -- stylua: ignore\n  f   =   1,\n  g   =   2,\n}\n", [], ["  f   =   1,\n"], ["\tg = 2,\n"]),
+    ("field-region-range-inside", "local t   =   {\n  -- stylua: ignore start\n  f = function()\n     local   x   =   1\n  end,\n  -- stylua: ignore end\n  g = 1,\n}\n",
+     ["--range-start", "64", "--range-end", "81"], ["     local   x   =   1\n"], []),
     ("eof-comment", "-- stylua: ignore start\nlocal a   = 1\n-- trailing   comment\n", [], ["local a   = 1\n"], []),
 ]
 RANGE_BATTERY = [
@@ -97,7 +102,7 @@ def scenarios_for(kind, names):
         return [n for n in names if n in SEMI] + [n for n in names if n not in SEMI]
     if kind == "toggle":
         return [n for n in names if n in TOGGLE]
-    if kind == "ignored-in-range":
+    if kind in ("ignored-in-range", "field"):
         return list(names)
     return [n for n in names if n not in SEMI]
 
@@ -128,6 +133,7 @@ def analyses(ses, rep):
     flagged += ignoremodel.analyse_toggle(M, ses, rep)
     flagged += ignoremodel.analyse_format_block(M, ses, rep)
     flagged += ignoremodel.analyse_skip_arms(M, ses, rep)
+    flagged += ignoremodel.analyse_field_sites(M, ses, rep)
     return flagged
 
 
@@ -144,7 +150,8 @@ def run(ses, rep):
     rep.samples.append({"flagged": [(f[0], f[1]) for f in flagged][:5]})
     confirm(rep, flagged, IGNORE_BATTERY, "C08", ("ignore", "toggle", "both"))
     confirm(rep, flagged, [b for b in RANGE_BATTERY if "ignore" in b[0]], "C08", ("ignored-in-range",))
-    others = [f for f in flagged if f[2] not in ("ignore", "toggle", "both", "ignored-in-range")]
+    confirm(rep, flagged, [b for b in IGNORE_BATTERY if b[0].startswith("field-")], "C08", ("field",))
+    others = [f for f in flagged if f[2] not in ("ignore", "toggle", "both", "ignored-in-range", "field")]
     rep.extra["flagged_for_C09"] = [f[0] for f in others]
 
 
